@@ -222,8 +222,10 @@ def n0pretty(
                         else:
                             key = str(key)
 
-                        if sub_result:
+                        if sub_result.strip():
                             sub_result += ","
+                        elif sub_result:
+                            sub_result += " "  # only blanks of absent columns precede: no comma
                         sub_result += f" {key_type}{key}: {sub_item_result}"
                     else:
                         if sub_result:
